@@ -32,7 +32,7 @@ func (a Arch) String() string {
 	/* ABI-OS-CPU -- gnu-linux-amd64. Use the shortest name that ParseArch
 	 * reads back as exactly this Arch: "any" and "all" stand for themselves,
 	 * a bare CPU means gnu-linux-CPU, and OS-CPU leaves the ABI open. */
-	if a.ABI == a.OS && a.OS == a.CPU && (a.CPU == "any" || a.CPU == "all") {
+	if a.ABI == a.OS && a.OS == a.CPU && (a.CPU == "any" || a.CPU == "all" || a.CPU == "") {
 		return a.CPU
 	}
 	if !strings.Contains(a.CPU, "-") {
